@@ -138,7 +138,13 @@ func (s *attrStore) Attrs(id uint64) (m map[string]interface{}, err error) {
 	// Add to cache.
 	s.attrCache.Set(id, m)
 
-	return m, nil
+	// Hand out a copy, as on a cache hit: m is now the cached map (or the
+	// shared empty map) and must not be changed by the caller.
+	ret := make(map[string]interface{}, len(m))
+	for k, v := range m {
+		ret[k] = v
+	}
+	return ret, nil
 }
 
 // SetAttrs sets attribute values for a given ID.
